@@ -185,22 +185,29 @@ def searchLeft (t : List Int) (v : List Val) (wd : Wnd) (r : Nat) : Nat → Nat 
     if wideEnough t wd r (l + 1) then (l + 1, n, true)
     else searchLeft t v wd r l (if isPresent v l then n + 1 else n)
 
-/-- window.moveOneLeft; `none` = returned false (the cursor fields l, r, n keep their previous values) -/
-def moveOneLeft (t : List Int) (v : List Val) (wd : Wnd) : Option Wnd :=
-  if wd.done then none else
-  let n1 := if 0 < wd.n && isPresent v wd.r then wd.n - 1 else wd.n
-  let r := wd.r - 1
-  let l0 := if wd.l > r then r else wd.l
-  let n2 := if wd.l > r then (if !isPresent v r || (wd.strict && decide (wd.w < wd.s)) then 0 else 1) else n1
-  let found0 := decide (wd.w ≤ 0) && l0 == r
-  let res := if found0 then (l0, n2, true) else searchLeft t v wd r l0 n2
-  let l := res.1
-  let n := res.2.1
-  let found := res.2.2
+/-- `if l > r {l = r; …}`: where the search for the left edge starts -/
+def leftStart (wd : Wnd) (r : Nat) : Nat := if wd.l > r then r else wd.l
+
+/-- the count of present points the search starts with -/
+def countStart (v : List Val) (wd : Wnd) (r : Nat) : Nat :=
+  if wd.l > r then (if !isPresent v r || (wd.strict && decide (wd.w < wd.s)) then 0 else 1)
+  else (if 0 < wd.n && isPresent v wd.r then wd.n - 1 else wd.n)
+
+/-- "see what we got": commit l, r, n; at the left end of the data the cursor is done (and fails unless the window fits) -/
+def finishMove (t : List Int) (wd : Wnd) (r l n : Nat) (found : Bool) : Option Wnd :=
   if l = 0 then
     (if found then some { wd with l := l, r := r, n := n, done := true } else none)
   else
     some { wd with l := l, r := r, n := n, s := tAt t r - tAt t (r - 1) }
+
+/-- window.moveOneLeft; `none` = returned false (the cursor fields l, r, n keep their previous values) -/
+def moveOneLeft (t : List Int) (v : List Val) (wd : Wnd) : Option Wnd :=
+  if wd.done then none else
+  let r := wd.r - 1
+  let l0 := leftStart wd r
+  let n0 := countStart v wd r
+  let res := if decide (wd.w ≤ 0) && l0 == r then (l0, n0, true) else searchLeft t v wd r l0 n0
+  finishMove t wd r res.1 res.2.1 res.2.2
 
 /-- window.setValueAtRight -/
 def setRight (v : List Val) (wd : Wnd) (x : Val) : List Val × Wnd :=
